@@ -1,9 +1,5 @@
-import PGM.Model.Index
-import PGM.Model.Scalar
-import PGM.Model.NdArr
-import PGM.Model.Domain
-import PGM.Model.Factor
-import PGM.Model.Dataset
-import PGM.Proofs.Fold
-import PGM.Proofs.NdArr
+import PGM.Properties.C01
 import PGM.Properties.C07
+import PGM.Properties.C12
+import PGM.Properties.C14
+import PGM.Properties.C15
